@@ -523,6 +523,12 @@ pub fn check(hdr: &str, lines: &[String], trace: &[(String, Vec<String>)], mon: 
                     if !d6_op && Some(b[0] & 0x0F) != last_req_seq {
                         fail(mon, hdr, "solicited_correlated", "", &format!("op {k}: {} expected seq {:?}", hex(&b[..4]), last_req_seq));
                     }
+                    // C14 (deferral): a READ deferred during an unsolicited wait is answered in the session that
+                    // received it or not at all - a first solicited fragment in a session that has not delivered
+                    // any request yet answers a READ of an earlier session (S175)
+                    if !d6_op && last_req_seq.is_none() {
+                        fail(mon, hdr, "deferred_read_dies_with_session", "", &format!("op {k}: {} transmitted in a session that received no request", hex(&b[..4])));
+                    }
                 } else if let Some(p) = &last_sol_tx {
                     // the echo of a READ repeated during the confirm wait of a later fragment re-sends that fragment
                     let echo = in_sol_wait && b == p && frag.as_ref().map(|f| Some(&f.2) == last_read_frag.as_ref()).unwrap_or(false) && !has_cb(outs, "cb sol_new_request");
